@@ -138,10 +138,20 @@ class Gen:
         elif kind == "KRxn":
             f = r.choice(["NaCl", "KCl", "CaCl2"])
             body = " %s 1\n %.8f moles\n" % (f, 0.0005 + 0.002 * u)
+            raw = " -reactant_list\n  %s 1\n -steps\n  %.8f\n -count_steps 0\n -equal_increments 0\n -units Mol\n" % (f, 0.0005 + 0.002 * u)
         elif kind == "KTemp":
             body = " %.4f\n" % (22 + 12 * u)
+            raw = " -count_temps 1\n -equal_increments 0\n -temps\n  %.4f\n" % (22 + 12 * u)
         else:
             body = " %.4f\n" % (1 + 4 * u)
+            raw = " -count 0\n -equal_increments 0\n -pressures\n  %.4f\n" % (1 + 4 * u)
+        if kind == "KMix":
+            raw = body
+        if kind in ("KRxn", "KTemp", "KPres", "KMix") and r.random() < 0.4:
+            # the *_RAW data block: stored by Utilities::Rxn_read_raw (m[n] = entity; Rxn_copies)
+            hdr = hdr.replace(KW[kind], KW[kind] + "_RAW", 1)
+            body = raw
+            self.count("define_raw:" + kind)
         self.count("define:" + kind)
         return {"op": "def", "kind": kind, "n": n, "n_end": n_end, "id": did, "text": hdr + "\n" + body, "tmpl": tmpl}
 
@@ -259,21 +269,25 @@ class Gen:
         self.count("run_cells")
         return sorted(c)
 
+    MIXKW = {"KSol": "SOLUTION_MIX", "KPP": "EQUILIBRIUM_PHASES_MIX", "KExch": "EXCHANGE_MIX", "KGas": "GAS_PHASE_MIX"}
+
     def mix(self):
         r = self.rng
-        sols = self.existing("KSol", 0, 12)
-        if len(sols) < 1:
+        kinds = [k for k in ["KSol", "KSol", "KSol", "KPP", "KExch", "KGas"] if self.existing(k, 0, 12)]
+        if not kinds:
             return None
+        kind = r.choice(kinds)
+        have = self.existing(kind, 0, 12)
         mid = self.fresh()
         u = (mid % 983) / 983.0
-        a = r.choice(sols)
-        b = r.choice(sols)
-        n, n_end = self.rng_range("KSol")
+        a = r.choice(have)
+        b = r.choice(have)
+        n, n_end = self.rng_range(kind)
         nums = [a, b] if a != b else [a]
         body = " %d %.6f\n" % (a, 0.3 + 0.4 * u) + (" %d %.6f\n" % (b, 0.7 - 0.4 * u) if a != b else "")
-        text = "SOLUTION_MIX %d%s\n%s" % (n, "-%d" % n_end if n_end > n else "", body)
-        self.count("solution_mix")
-        return {"kind": "KSol", "n": n, "n_end": n_end, "id": mid, "nums": nums, "text": text}
+        text = "%s %d%s\n%s" % (self.MIXKW[kind], n, "-%d" % n_end if n_end > n else "", body)
+        self.count("mix:" + kind)
+        return {"kind": kind, "n": n, "n_end": n_end, "id": mid, "nums": nums, "text": text, "tmpl": dict(self.mirror[kind][a])}
 
     def copy_line(self):
         r = self.rng
@@ -436,7 +450,7 @@ def apply_cells(mir, st):
 
 def apply_mixes(mir, st):
     for m in st["mixes"]:
-        mir[m["kind"]][m["n"]] = {"calc": True}
+        mir[m["kind"]][m["n"]] = dict(m.get("tmpl") or {"calc": True})
         _copies(mir[m["kind"]], m["n"], m["n_end"])
 
 
@@ -755,6 +769,22 @@ def norm_block(kind, lines):
     return out
 
 
+def drop_derived(kind, lines):
+    """for the *_MODIFY line diff: EQUILIBRIUM_PHASES -eltList is recomputed from the phases whenever the
+    assemblage is read (after an EQUILIBRIUM_PHASES_MIX it holds scaled coefficients until then)"""
+    if kind != "KPP":
+        return lines
+    out, skip = [], False
+    for l in lines:
+        s = l.strip()
+        if s.startswith("-") or s.startswith("#"):
+            skip = s.split()[0] == "-eltList"
+        elif skip:
+            continue
+        out.append(l)
+    return out
+
+
 def fp_of(kind, lines):
     return hashlib.sha1((kind + "\n" + "\n".join(norm_block(kind, lines))).encode()).hexdigest()[:16]
 
@@ -763,24 +793,29 @@ ELT_LINE = re.compile(r"^\s+([A-Z][a-z]?)(\([-+\d]+\))?\s+(-?[\d.]+(?:[eE][-+]?\
 
 
 def block_elements(kind, lines):
-    """(must, may): elements certainly present in the entity / elements that may legitimately be listed"""
+    """(must, may): elements certainly present in the entity (non-zero amount) / elements that may
+    legitimately be listed for it"""
     must, may = set(), set()
-    section = ""
+    if kind not in REACTANT:
+        return must, may
+    section, comp = "", None
     for l in lines:
         s = l.strip()
         if s.startswith("#"):
             continue
+        toks = s.split()
         if s.startswith("-"):
-            section = s.split()[0]
-            toks = s.split()
+            section = toks[0]
             if toks[0] in ("-component", "-comp") and len(toks) > 1:
-                name = toks[1]
-                els = PHASES.get(name)
-                if els is None and kind in ("KExch",):
-                    els = re.findall(r"[A-Z][a-z]?", name)
-                for e in els or []:
-                    if e in ELS:
-                        must.add(e); may.add(e)
+                comp = toks[1]
+                for e in PHASES.get(comp, []):
+                    may.add(e)
+            elif toks[0] == "-moles" and comp is not None and kind in ("KGas", "KSS") and len(toks) > 1:
+                try:
+                    if float(toks[1]) > 0:
+                        must.update(e for e in PHASES.get(comp, []) if e in ELS)
+                except ValueError:
+                    pass
             continue
         m = ELT_LINE.match(l)
         if m and m.group(1) in ELS:
@@ -788,13 +823,10 @@ def block_elements(kind, lines):
             if section in ("-totals", "-eltList") and float(m.group(3)) != 0.0:
                 must.add(m.group(1))
             continue
-        toks = s.split()
         if toks and section in ("-reactant_list", "-namecoef"):
             for e in re.findall(r"[A-Z][a-z]?", toks[0]):
                 if e in ELS:
                     must.add(e); may.add(e)
-    if kind not in REACTANT:
-        return set(), set()
     return must, may
 
 
@@ -902,7 +934,8 @@ def check_store(i, where, blocks, dup, mstore, id2fp, fp2id, prev_blocks, prev_m
                 continue
             if mstore.get(key, (0, 0))[1] != expected_mod_id(x, prev_model[key][1]):
                 raise Mismatch("harness", i, "internal: model content id of a modified entry is not modify(d, base)")
-            d = diff_lines(prev_blocks[key], blocks[key])
+            # multiset difference: *_MODIFY re-reads the entity, which may re-sort its components
+            d = diff_multiset(drop_derived(x["kind"], prev_blocks[key]), drop_derived(x["kind"], blocks[key]))
             bad = [l for l in d if l[1:].split() and l[1:].split()[0] not in (x["field"], "-new_def")]
             if bad:
                 raise Mismatch("modify-touches-other", i, "%s_MODIFY %d %s changed other quantities: %s" % (KW[x["kind"]], x["n"], x["field"], bad[:4]),
@@ -937,6 +970,12 @@ def expected_mod_id(x, base):
 def diff_lines(a, b):
     import difflib
     return [l for l in difflib.unified_diff(a, b, lineterm="", n=0) if not l.startswith(("---", "+++", "@@"))]
+
+
+def diff_multiset(a, b):
+    from collections import Counter
+    ca, cb = Counter(a), Counter(b)
+    return ["-" + l for l in (ca - cb).elements()] + ["+" + l for l in (cb - ca).elements()]
 
 
 def compare_twin(hist, impl, twin, timpl, back, stats):
@@ -1061,7 +1100,7 @@ def finding_probe(ctx, stats):
 
 
 def run(ctx):
-    ok = vlib.coq_stage(ctx, "Props/Properties_C14.vo", gen=gen, extra_targets=["C14/Exec.vo"])
+    ok = vlib.coq_stage(ctx, "Props/Properties_C14.vo", gen=gen, extra_targets=["C14/Exec.vo", "C14/Examples.vo"])
     ctx.checker_cmd = "cd /verif/coq && make -k Props/Properties_C14.vo   (after props/c14.py:gen() regenerated Gen/Gen_C14.v)"
     stats = {}
     if ctx.replay:
@@ -1076,7 +1115,9 @@ def run(ctx):
         m = still_fails(hist, cat)
         ctx.case("replay", sample={"category": cat, "still_fails": m is not None})
         if m is not None:
-            report(ctx, hist, m)
+            ctx.violation(obj.get("key", "C14:%s:replay" % cat), obj.get("what", m.what),
+                          {"kind": "ops", "database": "phreeqc.dat", "category": cat, "failing_step": m.step, "ops": strip(hist),
+                           "input_text": [st["_text"] for st in hist], "observed": m.observed, "expected": m.expected})
         return
     # a failed obligation names a region: look harder there
     focus, nh, ns = {}, ctx.n(40, 400), 12
